@@ -540,6 +540,34 @@ class API:
                             resource_messages=all_resource_messages,
                         )
 
+                    # A nested message or enum is only ever rendered inside its
+                    # outermost enclosing message, so an enclosing message with an
+                    # allowlisted descendant (and everything it needs) is kept too.
+                    def has_allowlisted_descendant(message):
+                        return any(
+                            enum.ident in address_allowlist
+                            for enum in message.nested_enums.values()
+                        ) or any(
+                            nested.ident in address_allowlist
+                            or has_allowlisted_descendant(nested)
+                            for nested in message.nested_messages.values()
+                        )
+
+                    changed = True
+                    while changed:
+                        changed = False
+                        for proto in api.protos.values():
+                            for message in proto.messages.values():
+                                if (
+                                    message.ident not in address_allowlist
+                                    and has_allowlisted_descendant(message)
+                                ):
+                                    message.add_to_address_allowlist(
+                                        address_allowlist=address_allowlist,
+                                        resource_messages=all_resource_messages,
+                                    )
+                                    changed = True
+
                     # We only prune services/messages/enums from protos that are not dependencies.
                     for name, proto in api.protos.items():
                         proto_to_generate = (
